@@ -523,7 +523,7 @@ impl NameGen {
         let mut name = if src.chance(cfg.p_odd_name, 16) {
             // arbitrary short strings over letters and the characters that get sanitised, so that
             // runs of separators, leading / trailing separators and separator-only names occur
-            const ALPHA: [char; 7] = ['a', 'b', ' ', '-', '/', '_', 'c'];
+            const ALPHA: [char; 9] = ['a', 'b', ' ', '-', '/', '_', 'c', '"', '\\'];
             let len = 1 + src.pick(5);
             let mut n = String::new();
             for _ in 0..len {
